@@ -209,6 +209,8 @@ def run(model: Model, rep: Report) -> None:
     if n14 == 0:
         raise AnchorMissing("no use of id() found (group_textboxes keys its serial numbers by id)")
     page_flags_rule(model, rep, "C12-R15")
+    set_iteration_rule(model, rep, "C12-R16")
+    page_memo_rule(model, rep, "C12-R17")
     # ---------------------------------------------------------------- R1
     r1 = rep.rule("C12-R1", "EFFECTS", "global state inventory: no function writes module/class-level state outside the reviewed memo tables", 20)
     writes = global_writes(model, inv)
@@ -328,6 +330,103 @@ def page_flags_rule(model: Model, rep: Report, rid: str) -> None:
             r.check(ok, site(f, arm), q, f"self.{flag} is lowered after the page's children are rendered (directly or by flushing the pending output)", why=f"self.{flag} may still be set when the page is closed: what was being assembled is written into the next page (or never), so a page extracted after another differs from the same page extracted alone")
     if n_inst == 0:
         raise AnchorMissing("no converter raises a flag in receive_layout (HOCRConverter.within_chars expected)")
+
+
+def _setlike(e: ast.AST, names: Set[str]) -> bool:
+    if isinstance(e, (ast.Set, ast.SetComp)):
+        return True
+    if isinstance(e, ast.Call):
+        f = e.func
+        if isinstance(f, ast.Name) and f.id in ("set", "frozenset"):
+            return True
+        if isinstance(f, ast.Attribute) and f.attr in ("difference", "union", "intersection", "symmetric_difference", "copy") and _setlike(f.value, names):
+            return True
+    if isinstance(e, ast.Name) and e.id in names:
+        return True
+    if isinstance(e, ast.BinOp) and isinstance(e.op, (ast.BitOr, ast.BitAnd, ast.Sub, ast.BitXor)) and (_setlike(e.left, names) or _setlike(e.right, names)):
+        return True
+    return False
+
+
+def set_iteration_rule(model: Model, rep: Report, rid: str) -> None:
+    """The order in which a set hands out its elements follows their hashes: memory addresses for layout objects, per-process
+    random values for strings.  A set may be asked questions (in, len, truth, add / discard) but whatever is produced by walking
+    over one differs from run to run - unless the walk goes through sorted() / min() / max()."""
+    r = rep.rule(rid, "DEPEND", "no result is produced by walking over a set: sets are only tested (in / len / truth) and updated, never iterated, unpacked, joined or turned into a list (the element order follows hashes - addresses, or per-process random values)", 5)
+    n_sets = 0
+    for q, f in sorted(model.funcs.items()):
+        if isinstance(f.node, ast.Lambda) or not q.startswith("pdfminer."):
+            continue
+        names: Set[str] = set()
+        scope = f
+        # names bound to sets here or in the enclosing function (closures)
+        chain = [f]
+        while chain[-1].parent is not None:
+            par = chain[-1].parent
+            par = par if not isinstance(par, str) else model.funcs.get(par)
+            if par is None or par in chain:
+                break
+            chain.append(par)
+        for fn in chain:
+            if isinstance(fn.node, ast.Lambda):
+                continue
+            for _ in range(3):
+                for n in walk_no_nested(fn.node):
+                    if isinstance(n, ast.Assign) and len(n.targets) == 1 and isinstance(n.targets[0], ast.Name) and _setlike(n.value, names):
+                        names.add(n.targets[0].id)
+                    elif isinstance(n, ast.AnnAssign) and isinstance(n.target, ast.Name) and n.value is not None and _setlike(n.value, names):
+                        names.add(n.target.id)
+        own = {n.targets[0].id for n in walk_no_nested(f.node) if isinstance(n, ast.Assign) and len(n.targets) == 1 and isinstance(n.targets[0], ast.Name) and n.targets[0].id in names}
+        n_sets += len(own)
+        for n in walk_no_nested(f.node):
+            its: List[Tuple[ast.AST, str]] = []
+            if isinstance(n, (ast.For, ast.AsyncFor)):
+                its.append((n.iter, "for loop"))
+            if isinstance(n, (ast.ListComp, ast.GeneratorExp, ast.DictComp, ast.SetComp)):
+                for gcomp in n.generators:
+                    its.append((gcomp.iter, "comprehension"))
+            if isinstance(n, ast.Call) and isinstance(n.func, ast.Name) and n.func.id in ("list", "tuple", "enumerate", "iter", "next", "zip", "map", "filter", "reversed") and n.args:
+                its += [(a, f"{n.func.id}()") for a in n.args]
+            if isinstance(n, ast.Call) and isinstance(n.func, ast.Attribute) and n.func.attr in ("join", "extend") and n.args:
+                its.append((n.args[0], f".{n.func.attr}()"))
+            if isinstance(n, ast.Call) and (dotted(n.func) or "") in ("uniq", "utils.uniq") and n.args:
+                its.append((n.args[0], "uniq()"))
+            if isinstance(n, ast.Starred):
+                its.append((n.value, "unpacking"))
+            for it, how in its:
+                if _setlike(it, names):
+                    r.violation(site(f, it), q, f"{unparse(it)[:70]} walked by a {how}", "the elements come out in hash order (addresses of layout objects, per-process random hashes of strings): what is built from this walk differs between runs, between two identical pages, and between extracting pages together or one at a time")
+        for nm in sorted(own):
+            r.ok(site(f), q, f"set `{nm}`: only tested and updated", note="no walk over it")
+    if n_sets < 5:
+        raise AnchorMissing("fewer than 5 set-valued locals found (visited / done sets expected)")
+
+
+def page_memo_rule(model: Model, rep: Report, rid: str) -> None:
+    """What a converter learns from a page (its box, its number) is taken from every page anew: an assignment under
+    `if self.X is None` / `if not self.X` keeps the first page's value for the whole document."""
+    r = rep.rule(rid, "DEPEND", "converters: a field that receive_layout fills from the page is filled for every page - never under a test of the field's own earlier value (a compute-once memo would keep the first page's value for all later pages)", 2)
+    n_inst = 0
+    for q, f in sorted(model.funcs.items()):
+        if not (q.startswith("pdfminer.converter.") and ".receive_layout" in q) or isinstance(f.node, ast.Lambda):
+            continue
+        nodes = list(walk_no_nested(f.node))
+        raised = {t.attr for n in ast.walk(f.node) if isinstance(n, ast.Assign) and isinstance(n.value, ast.Constant) and n.value.value is True for t in n.targets if isinstance(t, ast.Attribute) and unparse(t.value) == "self"}
+        for n in nodes:
+            if isinstance(n, ast.Assign):
+                for t in n.targets:
+                    if isinstance(t, ast.Attribute) and unparse(t.value) == "self" and any(isinstance(x, ast.Name) and x.id in ("item", "ltpage", "page") for x in ast.walk(n.value)):
+                        n_inst += 1
+                        fld = t.attr
+                        from ..util import guard_conjuncts
+
+                        g = guard_conjuncts(f, n, innermost=True)
+                        memo = [c for c in g if c in (f"self.{fld}isNone", f"notself.{fld}", f"nothasattr(self,'{fld}')") ]
+                        if fld in raised:
+                            continue
+                        r.check(not memo, site(f, n), q, f"{unparse(n)[:70]} : runs for every page", why=f"guarded by `{memo[0] if memo else ''}`: self.{fld} keeps the value of the first page rendered, so the output of a later page depends on which pages came before it")
+    if n_inst == 0:
+        raise AnchorMissing("no converter field filled from the page item found (HOCRConverter.page_bbox expected)")
 
 
 def _has_instance_state_writers(model: Model, cls: str) -> bool:
